@@ -68,7 +68,24 @@ def _check(rep, tier, seed, COMP, Name, quick, sub, binary):
     if hists:
         rep.sample(dict(kind="recorded concurrent history", events=hists[0][:14]))
         qcommon.corrupt_selftest(rep, COMP, Name + "LinTrace", "LinTrace.cfg", hists, Name + "LinTrace rejects a corrupted return value")
+    # (c) model -> code -> model: BURST schedules of the stepped spec (several driver actions issued without waiting for
+    # quiescence: Add+Add, Add+Cancel, Remove+Close ... before a woken goroutine runs), executed with GOMAXPROCS 1 and 4;
+    # the recorded histories are validated for linearizability like the free-running ones
+    r = tlc.run_tlc(COMP, Name + "Step", "Step_edge.cfg", workers=6, timeout=900)
+    rep.add_tlc(Name + "Step/Step_edge.cfg", r, "edge cover of the abstract blocking state graph incl. burst steps -> driver schedules")
+    if not r.ok:
+        rep.infra_error(Name + "Step schedule generation failed: " + r.out[-1200:])
+        return
+    scheds = [b for b in replay.dedupe(r.tagged.get("BEH", [])) if qcommon.has_burst(b)]
+    scheds, procs = qcommon.with_procs(qcommon.pick(scheds, quick, seed, short=4, rest=500))
+    rep.cov["burst_schedules"] = len(scheds)
+    bh = qcommon.run_schedules(rep, binary, "sched", scheds, shards=12, label=COMP + "/burst", which=COMP, procs=procs)
+    trace.validate_all(rep, COMP, Name + "LinTrace", "LinTrace.cfg", bh, label=COMP + "/burst-lin", shards=8,
+                       key_fn=qcommon.lin_key(COMP))
+    if bh:
+        rep.sample(dict(kind="burst schedule history", events=bh[len(bh) // 2][:14]))
     rep.cov["rule"] = ("sequential behaviours of QueueSeq (edge cover over all option sets + random deep; thorough: all sequences of "
                        "length 5 for 6 option sets) replayed with exact result/Len/contents comparison; concurrent histories "
-                       "(2-4 goroutines, random ops, cancellations) validated for linearizability by QueueLinTrace; "
+                       "(2-4 goroutines, random ops, cancellations) validated for linearizability by QueueLinTrace; burst schedules of the stepped spec (driver actions "
+                       "issued without waiting for quiescence, GOMAXPROCS 1 and 4) executed and validated likewise; "
                        "non-trivial = more than two distinct results / more than 4 events")
